@@ -12,6 +12,22 @@ from sigma.exceptions import SigmaSecurityError
 PYSIGMA_ALLOW_VARS_EXECUTION_ENV = "PYSIGMA_ALLOW_VARS_EXECUTION"
 
 
+class SigmaSandboxedEnvironment(SandboxedEnvironment):
+    """
+    Sandbox for templates that are part of a processing pipeline document. The template context
+    contains live pySigma objects (pipeline, rule, backend). Their attributes can be read, but no
+    function, method or class of the pySigma library can be called from template text: the loader
+    API (from_dict/from_yaml with allow_template_vars or allow_external_sources) would otherwise
+    let a pipeline document grant itself the capabilities only the caller may grant.
+    """
+
+    def is_safe_callable(self, obj: Any) -> bool:
+        module = getattr(obj, "__module__", None)
+        if isinstance(module, str) and (module == "sigma" or module.startswith("sigma.")):
+            return False
+        return bool(super().is_safe_callable(obj))
+
+
 @dataclass
 class TemplateBase:
     """Base class for Jinja template postprocessors and finalizers.
@@ -47,10 +63,10 @@ class TemplateBase:
 
     def __post_init__(self) -> None:
         if self.path is None:
-            env = SandboxedEnvironment(autoescape=self.autoescape)
+            env = SigmaSandboxedEnvironment(autoescape=self.autoescape)
             self.j2template = env.from_string(self.template)
         else:
-            env = SandboxedEnvironment(
+            env = SigmaSandboxedEnvironment(
                 autoescape=self.autoescape, loader=FileSystemLoader(self.path)
             )
             self.j2template = env.get_template(self.template)
